@@ -36,7 +36,7 @@ REGISTRATION = {
             "case-insensitive lookup lives in routes.go getExistingName (C04 / F16), not in the path derivation.",
 }
 
-MODULES = ["OllamaVerif.Properties.C13", "OllamaVerif.Tie.C13"]
+MODULES = ["OllamaVerif.Properties.C13", "OllamaVerif.Properties.C13Ext", "OllamaVerif.Tie.C13"]
 THEOREMS = [
     "OllamaVerif.C13.valid_part_safe_model",
     "OllamaVerif.C13.valid_part_safe_names",
@@ -82,6 +82,16 @@ THEOREMS = [
     "OllamaVerif.C13.stepH_cache_noTwins",
     "OllamaVerif.C13.runH_noTwins",
     "OllamaVerif.C13.manifestRel_fold",
+    "OllamaVerif.C13.defaultRoot_clean",
+    "OllamaVerif.C13.defaultRoot_nonvacuous",
+    "OllamaVerif.C13.legacy_hex_case_witness",
+    # round 7 (Properties/C13Ext.lean)
+    "OllamaVerif.C13.canonical_same_blob",
+    "OllamaVerif.C13.manifestsEnum_sound",
+    "OllamaVerif.C13.manifestsEnum_complete",
+    "OllamaVerif.C13.manifestsEnum_keys_injective",
+    "OllamaVerif.C13.modelpath_print_parse",
+    "OllamaVerif.C13.modelpath_print_parse_model",
     "OllamaVerif.Tie.C13.first_sets_match",
     "OllamaVerif.Tie.C13.rest_sets_match",
     "OllamaVerif.Tie.C13.length_limits_match",
